@@ -7,7 +7,7 @@ cd /verif
 for p in "$@"; do
   out=$(VERIF_SEED=${VERIF_SEED:-7} ./check $p --tier ${TIER:-quick} 2>&1 | grep -v conda | tail -3)
   if echo "$out" | grep -q "^VIOLATION"; then echo "$p: DETECTED  $(echo "$out" | grep '^VIOLATION')"; r=$(echo "$out" | grep '^VIOLATION' | sed 's/.*replay=\([^ ]*\).*/\1/'); python3 -c "
-import json,sys; d=json.load(open('$r')); print('    case:', d.get('case')); print('    impl:', d.get('implementation', d.get('implementation_results'))); print('    model:', d.get('model_equals_spec_by_theorem')); print('    what:', d.get('what','')[:200])"
+import json,sys; d=json.load(open('$r')); print('    case:', d.get('case')); print('    impl:', d.get('implementation', d.get('implementation_results'))); print('    model:', d.get('model_equals_spec_by_theorem')); print('    what:', d.get('what','')[:200]); print('    proof:', str(d.get('proof_obligation_that_no_longer_checks'))[:260])"
   else echo "$p: missed   $(echo "$out" | tail -1)"; fi
 done
 git -C /repo checkout -- .
